@@ -199,9 +199,10 @@ def check_single_queue(ctx, fx, cfg, r1="R01.1", r2="R01.2"):
 
         def closures_in(body_, resolve, tyof=None):
             """submit / receive closures built in body_; resolve(operand of body_) -> (good, ends, roots) in the constructor"""
-            for bi, si, st in agg_sites(body_, ak="closure"):
+            lits = list(agg_sites(body_, ak="closure")) + [x for x in agg_sites(body_, ak="adt") if any(cf and cf.get("_adt") == x[2]["r"].get("def") for _k, cf, _ in subs)]
+            for bi, si, st in lits:
                 cdef = st["r"]["def"]
-                kind = [k for k, cf, _ in subs if cf and cf["def"] == cdef]
+                kind = [k for k, cf, _ in subs if cf and (cf["def"] == cdef or cf.get("_adt") == cdef)]
                 if not kind:
                     continue
                 kinds.append(kind[0])
@@ -510,6 +511,11 @@ def check_enq_operands(ctx, fx, f, b, inst, payload_from):
             continue
         rs_tx = roots(b, t["args"][0])
         rs_pl = roots(b, t["args"][1])
-        ok_tx = all(r.kind == "upvar" for r in rs_tx)
-        ok_pl = all(r.kind == ("arg" if payload_from == "arg" else "upvar") for r in rs_pl)
+        if f.get("_adt"):
+            # the method of a named submit object: the sender is a field of `self`, the payload the second parameter
+            ok_tx = bool(rs_tx) and all(r.kind == "arg" and r.site == 1 for r in rs_tx)
+            ok_pl = bool(rs_pl) and all(r.kind == "arg" and r.site == 2 for r in rs_pl)
+        else:
+            ok_tx = all(r.kind == "upvar" for r in rs_tx)
+            ok_pl = all(r.kind == ("arg" if payload_from == "arg" else "upvar") for r in rs_pl)
         ctx.require(ok_tx and ok_pl, "R01.3", inst + ":operands", "the enqueue must put the submitted payload into the captured sender: sender roots %s payload roots %s" % (sorted(map(str, rs_tx)), sorted(map(str, rs_pl))), fn=f["def"], site=t["l"])
